@@ -27,7 +27,6 @@ from .ptable import Z_OF, selftest_against_ebnf
 REPO = os.environ.get("VERIF_REPO", "/repo")
 EBNF_PATH = os.path.join(REPO, "tucan", "parser", "tucan.ebnf")
 
-sys.setrecursionlimit(max(sys.getrecursionlimit(), 20000))
 
 
 class GrammarError(Exception):
